@@ -29,8 +29,10 @@ N_ux    == <<95, 120>>                                                     \* _x
 N_at    == <<64>>                                                          \* @
 N_long  == [k \in 1..200 |-> 97 + (k % 26)]                                \* 200 bytes
 
-NamesQuick == {N_m, N_game, N_ab, N_atE, N_ddx, N_sp, N_bsg, N_bs, N_tdot, N_eu, N_eac, N_long}
-NamesThorough == NamesQuick \cup {N_sx, N_hira, N_doth, N_S, N_ux, N_at}
+N_ndd   == <<110, 111, 116, 101, 115, 46, 46, 116, 120, 116>>              \* notes..txt  (inner double dot)
+N_xdd   == <<120, 46, 46>>                                                 \* x..         (trailing double dot)
+NamesQuick == {N_m, N_game, N_ab, N_atE, N_ddx, N_sp, N_bsg, N_bs, N_tdot, N_eu, N_eac, N_long, N_ndd}
+NamesThorough == NamesQuick \cup {N_sx, N_hira, N_doth, N_S, N_ux, N_at, N_xdd}
 Names == IF Tier = "quick" THEN NamesQuick ELSE NamesThorough
 
 DirsBase == {N_m, N_game, N_ab, N_atE, N_ddx, N_sp}
